@@ -498,7 +498,7 @@ class AstInfo:
 
         Returns:
             True if it should be covered, False otherwise.
-            Defaults to True if there is no conditional statement at lineno.
+            Defaults to the line itself if there is no conditional statement at lineno.
         """
         for branch_node in nodes_of_class(self.ast, (ast.If, ast.For, ast.While, ast.match_case)):
             start = scope_line_range(branch_node)[0]
@@ -518,7 +518,9 @@ class AstInfo:
                     )
                 )
 
-        return True
+        # Any other jump (exception match, comprehension filter, boolean operator, ...)
+        # is covered exactly when its own line is.
+        return self.should_cover_line(lineno)
 
 
 class InstrumentationAdapter(Protocol):
